@@ -25,7 +25,9 @@ lockVars == <<stmt, inS, took, changed, logged, writer, tried>>
 LInit == stmt = "none" /\ inS = FALSE /\ took = FALSE /\ changed = FALSE /\ logged = FALSE /\ writer = "none" /\ tried = {}
 
 Begin(k)  == stmt = "none" /\ stmt' = k /\ took' = FALSE /\ changed' = FALSE /\ logged' = FALSE /\ UNCHANGED <<inS, writer, tried>>
-SLock     == stmt # "none" /\ ~inS /\ writer = "none" /\ inS' = TRUE /\ took' = TRUE /\ UNCHANGED <<stmt, changed, logged, writer, tried>>
+\* a statement takes the lock once: having released it, it is over (a statement that gives the lock up half-way and takes it
+\* again shows the flusher - and a crash - a state between two of its rows)
+SLock     == stmt # "none" /\ ~inS /\ ~took /\ writer = "none" /\ inS' = TRUE /\ took' = TRUE /\ UNCHANGED <<stmt, changed, logged, writer, tried>>
 \* a page is changed only while the lock is held
 Change    == inS /\ stmt # "select" /\ changed' = TRUE /\ logged' = FALSE /\ UNCHANGED <<stmt, inS, took, writer, tried>>
 \* one write call on the log; the append is complete at its fsync
